@@ -35,8 +35,9 @@ class Builder:
     def __init__(self, case):
         self.case = case
         self.registry = DurationRegistry()
-        for k, v in case.get('reg', {}).items():
-            self.registry.set_registry_at(k, v)
+        # registry durations are written only AFTER the whole circuit is built (build once, then set / sweep the delays): nested
+        # and unrolled copies must keep following the registry
+        self.dur_pending = dict(case.get('reg', {}))
         self.rep_registry = RepetitionRegistry()
         self.rep_pending = []
         self.leafinfo = []
@@ -90,6 +91,10 @@ class Builder:
             return so.LogicalObservableOperation(q[0], last_acquisition_index=a[0], main_target=a[1], **kw)
         raise ValueError(cls)
 
+    def flush_durs(self):
+        for k, v in self.dur_pending.items():
+            self.registry.set_registry_at(k, v)
+
     def flush_reps(self):
         """write the registry-provided repetition counts collected while building"""
         for key, reps_value in self.rep_pending:
@@ -129,6 +134,7 @@ class Builder:
             entries.append(circuit.add(op))
         if top:
             self.flush_reps()
+            self.flush_durs()
             self.top_entries = {id(e): k for k, e in enumerate(entries)}
             self.top_list = entries
         return circuit
@@ -239,10 +245,15 @@ def handle(case):
             d = ticks(c2.duration)
             out['plain_dur_first'] = {'ops': observe(c2), 'duration': d}
         if 'unrolled' in want:
-            c3 = Builder(case).build(case['prog'])
+            b3 = Builder(case)
+            c3 = b3.build(case['prog'])
             u = c3.apply_modifiers()
-            out['unrolled'] = {'ops': observe(u), 'duration': ticks(u.duration), 'comps': comps_of(u),
-                               'reps': [s.nr_of_repetitions for s in u.composite_operations]}
+            out['unrolled'] = {'ops': observe(u), 'duration': ticks(u.duration), 'comps': comps_of(u)}
+            # the registry-provided counts change AFTER unrolling (a sweep over the number of rounds that keeps the unrolled
+            # circuits): the unrolled circuit must not follow them any more
+            for key, reps_value in b3.rep_pending:
+                b3.rep_registry.set_registry_at(key, reps_value + 2)
+            out['unrolled']['reps'] = [s.nr_of_repetitions for s in u.composite_operations]
             u2 = u.apply_modifiers()
             out['unrolled_twice'] = {'ops': observe(u2), 'duration': ticks(u2.duration)}
             # fresh build, unrolled, durations read BEFORE anything is listed (the circuit's, then every sub-circuit's)
@@ -255,6 +266,31 @@ def handle(case):
                 for x, d in zip(comps3, sub_d3):
                     x['d'] = d                    # the duration each sub-circuit reported before the first listing
             out['unrolled_dur_first'] = {'ops': ops3, 'duration': d3, 'comps': comps3}
+        if 'after_change' in want:
+            # C04 under a history: build, unroll, list and read every duration under the first settings; then change the global
+            # durations (a nested override) and the registry durations (set one by one, the first twice), and observe again:
+            # circuit duration first, then every sub-circuit's, then the listing
+            b4 = Builder(case)
+            if case.get('late_reg'):        # the registry durations are not set at all before the change (the registry answers 0)
+                b4.dur_pending = {}
+            u4 = b4.build(case['prog']).apply_modifiers()
+            _ = observe(u4)
+            _ = [ticks(u4.duration)] + [ticks(sc.duration) for sc in u4.composite_operations]
+            env2 = {GlobalRegistryKey[k]: v for k, v in case['env2'].items()}
+            import contextlib
+            # (no override is entered when the global durations stay as they are: entering one drops every memoised time, which
+            # would hide a registry change that fails to)
+            with (temporary_override_get_registry_at(env2) if case['env2'] != case['env'] else contextlib.nullcontext()):
+                for k, v in case.get('reg2', {}).items():
+                    b4.registry.set_registry_at(k, v)
+                d4 = ticks(u4.duration)
+                sub_d4 = [ticks(sc.duration) for sc in u4.composite_operations]
+                ops4 = observe(u4)
+                comps4 = comps_of(u4)
+                if len(comps4) == len(sub_d4):
+                    for x, d in zip(comps4, sub_d4):
+                        x['d'] = d
+                out['after_change'] = {'ops': ops4, 'duration': d4, 'comps': comps4}
         if 'flatten' in want:       # C11: flatten of the plain and of the unrolled circuit, twice
             def flat_obs(circ):
                 f1 = circ.flatten()
@@ -318,6 +354,25 @@ def handle(case):
             before = observe(c4)
             mutate(cp4)
             out['orig_unchanged'] = before == observe(c4)
+            # the implicit copy made by nesting through the generic add() -- handed over as a circuit and as its raw structure:
+            # nesting leaves the original as it was; mutating the original leaves the parent alone, and the other way round
+            for raw in (False, True):
+                c5 = fresh()
+                outer5 = DeclarativeCircuit()
+                outer5.add(co.Wait(0, duration_strategy=FixedDurationStrategy(1.0)))     # something precedes the nested block
+                before_orig = observe(c5)
+                outer5.add(c5.circuit_structure if raw else c5)
+                nesting_left_orig = before_orig == observe(c5)
+                before_parent = observe(outer5)
+                mutate(c5)
+                out['copy_unchanged'] = out['copy_unchanged'] and before_parent == observe(outer5)
+                c6 = fresh()
+                outer6 = DeclarativeCircuit()
+                outer6.add(co.Wait(0, duration_strategy=FixedDurationStrategy(1.0)))
+                outer6.add(c6.circuit_structure if raw else c6)
+                before_orig6 = observe(c6)
+                mutate(outer6)
+                out['orig_unchanged'] = out['orig_unchanged'] and nesting_left_orig and before_orig6 == observe(c6)
         if 'cleared' in want:      # diagnostic: same observations with both memo tables cleared before each
             c4 = Builder(case).build(case['prog'])
             clear_caches()
